@@ -211,6 +211,7 @@ inductive ObjStep
   | setInt (f : HdrField) (v : Int)          -- `blk.<field> = v`
   | setBytes (f : HdrField) (b : Bytes)
   | asBlockheader                            -- continue with `as_blockheader()`
+  | asHex | prevId                           -- `as_hex()`, `previous_block_id()`: observers
 
 namespace BlockObj
 open Pycoin.Gen.Messages (block_hash_hasattr block_set_nonce_hasattr block_hash_attr)
@@ -252,7 +253,7 @@ def setBytes (o : BlockObj) (f : HdrField) (b : Bytes) : BlockObj :=
 /-- the state after a step (answers are produced by `hash` / `Block.stream…` on the state before it) -/
 def step (o : BlockObj) : ObjStep → BlockObj
   | .hash | .id => match o.hash with | .ok (_, o') => o' | .error _ => o
-  | .asBin | .streamHeader => o
+  | .asBin | .streamHeader | .asHex | .prevId => o
   | .setNonce n => o.setNonce n
   | .setInt f v => o.setInt f v
   | .setBytes f b => o.setBytes f b
